@@ -24,6 +24,8 @@ mod c16;
 mod c17;
 mod c18;
 mod c19;
+mod c05net;
+mod cachemodel;
 mod common;
 mod refwire;
 mod refzone;
